@@ -122,193 +122,6 @@ theorem selectKey_first_hit (g : Bytes) (s : Nat) (pre post : List Bytes) (K : B
     simp only [List.cons_append, selectKey, h0, ↓reduceIte]
     exact ih (fun k hk => hpre k (by simp [hk]))
 
-/-! ### guard settings loop -/
-theorem readU16_err {d : Bytes} {e : PyExc} (h : readU16 d = .error e) : e = .eofError := by
-  unfold readU16 at h
-  split at h
-  · cases h
-  · injection h with h; exact h.symm
-
-theorem readExact_err {d : Bytes} {n : Nat} {e : PyExc} (h : readExact d n = .error e) : e = .eofError := by
-  unfold readExact at h
-  split at h
-  · injection h with h; exact h.symm
-  · cases h
-
-theorem parseSetting_err {d : Bytes} {e : PyExc} (h : parseSetting d = .error e) : e = .eofError := by
-  unfold parseSetting at h
-  split at h
-  · rename_i h1; injection h with h; subst h; exact readU16_err h1
-  · split at h
-    · rename_i h1; injection h with h; subst h; exact readU16_err h1
-    · split at h
-      · rename_i h1; injection h with h; subst h; exact readU16_err h1
-      · split at h
-        · rename_i h1; injection h with h; subst h; exact readExact_err h1
-        · cases h
-
-/-- the settings loop without the exception plumbing (specification side) -/
-def settingsPure (d : Bytes) (settings : List Setting) (checksum : Nat) : List Setting × Nat :=
-  if d.take 2 = [0, 0] then (settings, checksum)
-  else
-    match h : parseSetting d with
-    | .error _ => (settings, checksum)
-    | .ok (s, rest) =>
-      settingsPure rest (settings ++ [s])
-        (if s.option = GUARD_PAYLOAD_CHECKSUM then u32be s.value else checksum)
-termination_by d.length
-decreasing_by have := parseSetting_rest h; omega
-
-theorem settingsLoop_eq (d : Bytes) (s : List Setting) (c : Nat) :
-    settingsLoop d s c = .ok (settingsPure d s c) := by
-  fun_induction settingsPure d s c with
-  | case1 d s c h => unfold settingsLoop; simp [h]
-  | case2 d s c h e he =>
-    unfold settingsLoop
-    simp only [h, ↓reduceIte]
-    split
-    · rename_i e' he'
-      have := parseSetting_err he'
-      simp [this]
-    · rename_i s' r' he'
-      rw [he] at he'; cases he'
-  | case3 d s c h st rest he ih =>
-    unfold settingsLoop
-    simp only [h, ↓reduceIte]
-    split
-    · rename_i e' he'
-      rw [he] at he'; cases he'
-    · rename_i s' r' he'
-      rw [he] at he'
-      injection he' with he'
-      injection he' with h1 h2
-      subst h1; subst h2
-      exact ih
-
-/-! ### marker scan -/
-/-- the metadata record the scan builds for a marker whose guard configuration starts at `gco` -/
-def metaAt (data xorkey : Bytes) (gco bco : Nat) : Meta :=
-  let mb := (data.drop bco).take BEACON_CONFIG_PATCH_SIZE
-  let mg := (data.drop (bco + mb.length)).take GUARD_PATCH_SIZE
-  let ug := C20.xor (C20.xor mg mb.reverse) xorkey
-  let r := settingsPure ug [] 0
-  { beaconConfigOffset := bco
-    guardConfigOffset := gco
-    maskedBeaconConfig := mb
-    maskedGuardConfig := mg
-    beaconXorKey := metaBeaconXorKey
-    guardrailXorKey := xorkey
-    unmaskedGuardConfig := ug
-    checksum := r.2
-    payloadXorKey := none
-    unmaskedBeaconConfig := none
-    settings := r.1 }
-
-theorem buildMeta_eq (f : PyFile) (k : Bytes) (gco bco : Nat) :
-    ∃ f', buildMeta f k gco bco = .ok (metaAt f.data k gco bco, f') ∧ f'.data = f.data := by
-  unfold buildMeta
-  rw [readAt_ok]
-  simp only [settingsLoop_eq]
-  refine ⟨_, rfl, ?_⟩
-  simp
-
-/-- marker relation at `offset` -/
-def markerAt (data : Bytes) (starts' : List Bytes) (size offset : Nat) : Prop :=
-  C20.xor (((data.drop offset).take (size * 2)).take size).reverse (((data.drop offset).take (size * 2)).drop size) ∈ starts'
-
-instance (data : Bytes) (starts' : List Bytes) (size offset : Nat) : Decidable (markerAt data starts' size offset) := by
-  unfold markerAt; infer_instance
-
-/-- what one iteration of the scan reports at `offset` -/
-def probeAt (data : Bytes) (starts' : List Bytes) (size : Nat) (xorkey : Bytes) (offset : Nat) : Option Meta :=
-  if markerAt data starts' size offset ∧ BEACON_CONFIG_PATCH_SIZE ≤ offset + 6 then
-    some (metaAt data xorkey (offset + 6) (offset + 6 - BEACON_CONFIG_PATCH_SIZE))
-  else none
-
-theorem scanLoop_eq (st : List Bytes) (size : Nat) (hsize : 0 < size) (k : Bytes) (n : Nat) :
-    ∀ (f : PyFile) (offset : Nat), f.data.length - offset = n →
-      scanLoop st size k f offset = .ok ((List.range' offset n).filterMap (probeAt f.data st size k)) := by
-  induction n with
-  | zero =>
-    intro f offset hn
-    unfold scanLoop
-    split
-    · rename_i e he; rw [readAt_ok] at he; cases he
-    · rename_i block f1 he
-      have hb : block = [] := by
-        rw [readAt_ok] at he
-        injection he with he
-        have := congrArg Prod.fst he
-        simp only [PyFile.read_nonneg] at this
-        rw [← this]; simp; right; omega
-      simp [hb]
-  | succ n ih =>
-    intro f offset hn
-    unfold scanLoop
-    split
-    · rename_i e he; rw [readAt_ok] at he; cases he
-    · rename_i block f1 he
-      have hd : f1.data = f.data := readAt_data he
-      have hblock : block = (f.data.drop offset).take (size * 2) := by
-        rw [readAt_ok] at he
-        injection he with he
-        have := congrArg Prod.fst he
-        simp only [PyFile.read_nonneg] at this
-        rw [← this]
-      have hne : block ≠ [] := by
-        rw [hblock]
-        intro h0
-        have := congrArg List.length h0
-        simp at this
-        omega
-      simp only [hne, ↓reduceDIte]
-      have hr : List.range' offset (n + 1) = offset :: List.range' (offset + 1) n := by
-        simp [List.range']
-      rw [hr, List.filterMap_cons]
-      have hm : (C20.xor (block.take size).reverse (block.drop size) ∈ st) = markerAt f.data st size offset := by
-        rw [hblock]; rfl
-      have ih1 : scanLoop st size k f1 (offset + 1) = .ok ((List.range' (offset + 1) n).filterMap (probeAt f.data st size k)) := by
-        have := ih f1 (offset + 1) (by rw [hd]; omega)
-        rw [hd] at this; exact this
-      by_cases hmk : markerAt f.data st size offset
-      · have hmk' : C20.xor (List.take size block).reverse (List.drop size block) ∈ st := by rw [hm]; exact hmk
-        simp only [hmk', ↓reduceIte]
-        by_cases hlt : (↑(offset + 6) : Int) - ↑BEACON_CONFIG_PATCH_SIZE < 0
-        · simp only [hlt, ↓reduceIte]
-          have hp : probeAt f.data st size k offset = none := by
-            unfold probeAt
-            rw [if_neg]
-            intro ⟨_, h2⟩
-            omega
-          rw [hp, ih1]
-        · simp only [hlt, ↓reduceIte]
-          have hge : BEACON_CONFIG_PATCH_SIZE ≤ offset + 6 := by omega
-          have hp : probeAt f.data st size k offset = some (metaAt f.data k (offset + 6) (offset + 6 - BEACON_CONFIG_PATCH_SIZE)) := by
-            unfold probeAt
-            rw [if_pos ⟨hmk, hge⟩]
-          have hto : ((↑(offset + 6) : Int) - ↑BEACON_CONFIG_PATCH_SIZE).toNat = offset + 6 - BEACON_CONFIG_PATCH_SIZE := by omega
-          obtain ⟨f2, hb, hd2⟩ := buildMeta_eq f1 k (offset + 6) (offset + 6 - BEACON_CONFIG_PATCH_SIZE)
-          rw [hto]
-          split
-          · rename_i e he2; rw [hb] at he2; cases he2
-          · rename_i m f2' he2
-            rw [hb] at he2
-            injection he2 with he2
-            injection he2 with h1 h2
-            subst h2
-            have ih2 : scanLoop st size k f2 (offset + 1) = .ok ((List.range' (offset + 1) n).filterMap (probeAt f.data st size k)) := by
-              have := ih f2 (offset + 1) (by rw [hd2, hd]; omega)
-              rw [hd2, hd] at this; exact this
-            rw [ih2, hp, ← h1, hd]
-      · have hmk' : ¬ C20.xor (List.take size block).reverse (List.drop size block) ∈ st := by rw [hm]; exact hmk
-        simp only [hmk', ↓reduceIte]
-        have hp : probeAt f.data st size k offset = none := by
-          unfold probeAt
-          rw [if_neg]
-          intro ⟨h1, _⟩
-          exact hmk h1
-        rw [hp, ih1]
-
 /-! ### Counter / most_common -/
 
 theorem incr_keys (c : Counter) (k : Bytes) :
@@ -870,5 +683,56 @@ theorem zero_grams_le (K d : Bytes) :
       rw [hg, hgx]
       simp only [hmod, ↓reduceIte, List.count_nil]
       split <;> split <;> omega
+
+/-! ### translating the file content -/
+
+/-- the same record with both offsets moved by `n` -/
+def Meta.shift (n : Nat) (m : Meta) : Meta :=
+  { m with beaconConfigOffset := m.beaconConfigOffset + n, guardConfigOffset := m.guardConfigOffset + n }
+
+theorem markerAt_shift (p data : Bytes) (sts : List Bytes) (off : Nat) :
+    markerAt (p ++ data) sts 6 (p.length + off) ↔ markerAt data sts 6 off := by
+  unfold markerAt
+  rw [List.drop_length_add_append]
+
+theorem metaAt_shift (p data k : Bytes) (gco bco : Nat) :
+    metaAt (p ++ data) k (p.length + gco) (p.length + bco) = (metaAt data k gco bco).shift p.length := by
+  unfold metaAt Meta.shift
+  simp only [Nat.add_assoc, List.drop_length_add_append]
+  congr 1 <;> omega
+
+theorem probeAt_shift (p data : Bytes) (sts : List Bytes) (k : Bytes) (off : Nat)
+    (hoff : BEACON_CONFIG_PATCH_SIZE ≤ off + 6) :
+    probeAt (p ++ data) sts 6 k (p.length + off) = (probeAt data sts 6 k off).map (Meta.shift p.length) := by
+  unfold probeAt
+  have h2 : BEACON_CONFIG_PATCH_SIZE ≤ p.length + off + 6 := by omega
+  by_cases hm : markerAt data sts 6 off
+  · rw [if_pos ⟨(markerAt_shift p data sts off).mpr hm, h2⟩, if_pos ⟨hm, hoff⟩]
+    simp only [Option.map_some, Option.some.injEq]
+    have e1 : p.length + off + 6 - BEACON_CONFIG_PATCH_SIZE = p.length + (off + 6 - BEACON_CONFIG_PATCH_SIZE) := by omega
+    have e2 : p.length + off + 6 = p.length + (off + 6) := by omega
+    rw [e1, e2, metaAt_shift]
+  · rw [if_neg (fun h => hm ((markerAt_shift p data sts off).mp h.1)), if_neg (fun h => hm h.1)]; rfl
+
+theorem filterMap_congr' {α β} {f g : α → Option β} {l : List α} (h : ∀ a ∈ l, f a = g a) :
+    l.filterMap f = l.filterMap g := by
+  induction l with
+  | nil => rfl
+  | cons x xs ih =>
+    simp only [List.filterMap_cons, h x (by simp)]
+    rw [ih (fun a ha => h a (by simp [ha]))]
+
+theorem probeAt_none_early (data : Bytes) (sts : List Bytes) (k : Bytes) (off : Nat)
+    (h : off + 6 < BEACON_CONFIG_PATCH_SIZE) : probeAt data sts 6 k off = none := by
+  unfold probeAt
+  rw [if_neg]
+  intro hc; omega
+
+theorem probeAt_gco {data : Bytes} {sts : List Bytes} {k : Bytes} {off : Nat} {m : Meta}
+    (h : probeAt data sts 6 k off = some m) : m.guardConfigOffset = off + 6 := by
+  unfold probeAt at h
+  split at h
+  · injection h with h; subst h; rfl
+  · cases h
 
 end C17
